@@ -854,6 +854,8 @@ def compare_chunk(args):
         kw_name = "KW:name" in kinds.split(",")
         if opts.get("c02") and req.get("err") is None and not kw_name:
             c02_model_free(case, kinds, req, kw_path, stats, report, viol)
+            if opts.get("c02_fslash") and (kw_path or zlib_mod(text, 3) == 0):
+                c02_fslash(case, kinds, items, segs, req, stats, report, viol)
         if oom:
             stats["oom"] += 1
             continue
@@ -1079,6 +1081,46 @@ def c02_model_free(case, kinds, req, kw_path, stats, report, viol):
         if "v" not in ir and ir.get("a") is not None and ir.get("anc_walk") is None:
             seen.add(json.dumps([ir["a"], ir.get("path"), ir.get("rendered")], sort_keys=True))
     c02_direct(case, kinds, opt, stats, report, viol, "optional:", seen)
+
+
+def zlib_mod(text, n):
+    import zlib
+    return zlib.crc32(text.encode("utf-8")) % n
+
+
+def c02_fslash(case, kinds, items, segs, req, stats, report, viol):
+    """"This holds in both notations": the same query WRITTEN in forward-slash notation (when the real parser reads it as the
+    same segments).  Its results must be located the same way - parent[parentref] is the node, the ancestry walks from the
+    root, the reported path (as it is, and rendered in either notation) re-resolves to the node.  Results reporting the same
+    node with the same path as the dot query are judged there already; anything else is judged here on the real code."""
+    stext = path_text(items, True)
+    ssegs = with_timer(lambda: parse_segments(stext))
+    if ssegs is None or ssegs != with_timer(lambda: parse_segments(case["path"])):
+        stats["fslash_skipped"] = stats.get("fslash_skipped", 0) + 1
+        return
+    sreq, _sd, _st = run_query(case["doc"], stext, "req")
+    stats["queries"] += 1
+    stats["fslash_judged"] = stats.get("fslash_judged", 0) + 1
+    scase = dict(case, path=stext, dot_path=case["path"], notation="fslash")
+    if sreq.get("err") is not None:
+        stats["fslash_query_raises"] = stats.get("fslash_query_raises", 0) + 1
+        return          # the two notations selecting differently is C01's subject (notation-differs), a crash C15's
+    # a result that the dot query reports identically (same node, same path and renderings, same ancestry verdict, and the
+    # same coordinate problems for the query as a whole) is judged there - also against the known findings
+    same_probs = sorted(sreq.get("problems") or []) == sorted(req.get("problems") or [])
+    if not same_probs:
+        sprobs = sreq["problems"] if sreq.get("problems") else ["coordinate-problems-differ-from-dot-query"]
+        report(viol, "c02:fslash:%s:%s" % (sprobs[0], kinds), "result coordinates of %r: %s (the dot query %r: %s)" % (
+            stext, sprobs, case["path"], req.get("problems") or "none"), dict(scase, impl=sreq, prop="C02"))
+    finger = lambda ir: json.dumps([ir.get("a"), ir.get("path"), ir.get("rendered"), ir.get("anc_walk")], sort_keys=True)  # noqa: E731
+    seen = {finger(ir) for ir in req["res"] if "v" not in ir}
+    fresh = [ir for ir in sreq["res"] if "v" in ir or finger(ir) not in seen]
+    stats["fslash_results"] = stats.get("fslash_results", 0) + len(sreq["res"])
+    if fresh:
+        before = stats.get("opt_results", 0)
+        c02_direct(scase, kinds, {"res": fresh}, stats, report, viol, "fslash:")
+        stats["fslash_fresh_results"] = stats.get("fslash_fresh_results", 0) + stats.get("opt_results", 0) - before
+        stats["opt_results"] = before
 
 
 def c02_direct(case, kinds, req, stats, report, viol, mode="", seen=(), tag="kw"):
